@@ -237,6 +237,10 @@ var buildCount int
 
 // buildWG runs the real builder once. forced == nil: natural (map iteration) order, roots logged through the hook.
 func buildWG(model *openfgav1.AuthorizationModel, forced []string) (run *wgRun) {
+	return buildWGWith(model, forced, false)
+}
+
+func buildWGWith(model *openfgav1.AuthorizationModel, forced []string, shared bool) (run *wgRun) {
 	hookMu.Lock()
 	defer hookMu.Unlock()
 	run = &wgRun{}
@@ -273,7 +277,7 @@ func buildWG(model *openfgav1.AuthorizationModel, forced []string) (run *wgRun) 
 		defer func() { panicked = recover() }()
 		b := graph.NewWeightedAuthorizationModelGraphBuilder()
 		buildCount++
-		if forced == nil && buildCount%2 == 0 {
+		if forced == nil && shared {
 			b = sharedBuilder
 		}
 		g, err = b.Build(model)
@@ -487,7 +491,8 @@ func wgReplay(args []string) error {
 		}
 		var nonTerm []string
 		for i := 0; i < *natural; i++ {
-			run := buildWG(model, nil)
+			// from the fourth natural run on, every second build re-uses the process-wide builder
+			run := buildWGWith(model, nil, i >= 3 && i%2 == 1)
 			if obs.Structure == nil {
 				obs.Structure = run.st
 			}
